@@ -124,3 +124,15 @@ Lemma isupport_valueless_harmless vt :
   i_chantypes (sup (fst (m_p ms))) = Some None /\ alive ms = true /\ escapes ms = [None; None] /\
   sent (fst (m_p ms)) = [[97; 98; 99]].
 Proof. cbv zeta. repeat split; vm_compute; reflexivity. Qed.
+
+(* a faulty plugin whose object has a property that raises when inspected: its in-filter, its __call__ and its
+   out-filter raise KeyError with a traceback through that object (getter raises ValueError).  Every handler that
+   swallows them runs Logger.exception -> collect_extra_debug_data over that object; the loop goes on *)
+Definition cb_poison : cb unit :=
+  CB (fun _ _ s => (HR s false (Some (XP KeyError ValueError)), true)) (fun _ _ s => HR s false (Some (XP KeyError ValueError)))
+     (fun _ s => HR s false (Some (XP KeyError ValueError))).
+Lemma poisoned_survives :
+  let ms := run_reads unit (fun _ => true) dec0 h0 h0 [cb_poison]
+              [RData [70; 79; 79; 10; 80; 73; 78; 71; 32; 58; 97; 10]] (init tt) in
+  alive ms = true /\ crashed ms = false /\ escapes ms = [None] /\ sent (fst (m_p ms)) = [[97]].
+Proof. cbv zeta. repeat split; vm_compute; reflexivity. Qed.
